@@ -38,5 +38,10 @@ case "${1:-}" in
   build) build; exit 0;;
   replay) build; exec "$BIN" replayfile "$2";;
   "") echo "usage: check.sh <Cxx> <quick|thorough> | replay <file> | build" >&2; exit 2;;
+  C18)
+    build
+    # separate free-running pass under the race detector (same harness bodies, no cooperative scheduler)
+    (cd "$SRC" && go build -race -tags verif -overlay "$BIN.overlay.json" -o "$BIN-race" ./cmd/pvmc 2> "$BIN-race.build.log") || echo "note: race-detector binary did not build; the race pass is skipped" >&2
+    PVMC_RACE_BIN="$BIN-race" exec "$BIN" check "$1" "${2:-quick}";;
   *) build; exec "$BIN" check "$1" "${2:-quick}";;
 esac
